@@ -474,6 +474,7 @@ def tensor_cases(rng, tier):
     for shape in shapes:
         N = len(shape)
         X = Tspec(rng, shape)
+        EW = M(C, "elementwise", shape=shape)
         for m in ("copy", "__pos__", "full"):
             out.append(case(C, m, "", X, [], {}, M(C, "copy", shape=shape)))
         out.append(case(C, "__deepcopy__", "", X, [py({})], {}, M(C, "copy", shape=shape)))
@@ -521,12 +522,12 @@ def tensor_cases(rng, tier):
         Y = Tspec(rng, shape)
         for m in ("__add__", "__sub__", "__mul__", "__truediv__", "__eq__", "__ne__", "__ge__", "__gt__", "__le__",
                   "__lt__", "__pow__", "logical_and", "logical_or", "logical_xor"):
-            out.append(case(C, m, "tensor", X, [Y]))
-            out.append(case(C, m, "scalar", X, [py(2.0)]))
+            out.append(case(C, m, "tensor", X, [Y], {}, EW))
+            out.append(case(C, m, "scalar", X, [py(2.0)], {}, EW))
         for m in ("__radd__", "__rmul__", "__rtruediv__"):
-            out.append(case(C, m, "scalar", X, [py(2.0)]))
-        out.append(case(C, "__mul__", "sptensor", X, [Sspec(rng, shape)]))
-        out.append(case(C, "__mul__", "ktensor", X, [Kspec(rng, shape)]))
+            out.append(case(C, m, "scalar", X, [py(2.0)], {}, EW))
+        out.append(case(C, "__mul__", "sptensor", X, [Sspec(rng, shape)], {}, EW))
+        out.append(case(C, "__mul__", "ktensor", X, [Kspec(rng, shape)], {}, EW))
         out.append(case(C, "__add__", "sumtensor", X, [{"t": "sumtensor", "parts": [Tspec(rng, shape)]}],
                         {}, COMP))
         out.append(case(C, "isequal", "tensor", X, [Y]))
@@ -554,20 +555,34 @@ def tensor_cases(rng, tier):
             out.append(case(C, "scale", "vector", X, [vec(rng, shape[0]), iarr([0])]))
             out.append(case(C, "scale", "tensor", X, [Tspec(rng, [shape[1]]), py(1)]))
         # ttv / ttm / mttkrp / nvecs
-        out.append(case(C, "ttv", "one", X, [vec(rng, shape[0]), py(0)]))
-        out.append(case(C, "ttv", "all", X, [lst([vec(rng, d) for d in shape])]))
+        def ttv_model(dims):
+            rem = [k for k in range(N) if k not in dims]
+            perm = rem + dims
+            sz = [shape[k] for k in perm]
+            return M(C, "ttv", perm=perm, dims=[gen.numel(sz[:-1]), sz[-1]], shape=[shape[k] for k in rem],
+                     flag="" if rem else "scalar")
+
+        def ttm_model(n, rows):
+            perm = [n] + [k for k in range(N) if k != n]
+            return M(C, "ttm", perm=perm, dims=[perm.index(k) for k in range(N)],
+                     shape=[rows if k == n else shape[k] for k in range(N)])
+
+        out.append(case(C, "ttv", "one", X, [vec(rng, shape[0]), py(0)], {}, ttv_model([0])))
+        out.append(case(C, "ttv", "all", X, [lst([vec(rng, d) for d in shape])], {}, ttv_model(list(range(N)))))
         if N >= 2:
-            out.append(case(C, "ttv", "exclude", X, [lst([vec(rng, d) for d in shape[1:]])], {"exclude_dims": py(0)}))
-            out.append(case(C, "ttv", "dims-arr", X, [lst([vec(rng, shape[1])]), iarr([1])]))
-            out.append(case(C, "ttm", "one", X, [mat(rng, 2, shape[0]), py(0)]))
-            out.append(case(C, "ttm", "C-layout", X, [mat(rng, 2, shape[1], "C"), py(1)]))
-            out.append(case(C, "ttm", "transpose", X, [mat(rng, shape[N - 1], 2), py(N - 1)], {"transpose": py(True)}))
+            out.append(case(C, "ttv", "exclude", X, [lst([vec(rng, d) for d in shape[1:]])], {"exclude_dims": py(0)},
+                            ttv_model(list(range(1, N)))))
+            out.append(case(C, "ttv", "dims-arr", X, [lst([vec(rng, shape[1])]), iarr([1])], {}, ttv_model([1])))
+            out.append(case(C, "ttm", "one", X, [mat(rng, 2, shape[0]), py(0)], {}, ttm_model(0, 2)))
+            out.append(case(C, "ttm", "C-layout", X, [mat(rng, 2, shape[1], "C"), py(1)], {}, ttm_model(1, 2)))
+            out.append(case(C, "ttm", "transpose", X, [mat(rng, shape[N - 1], 2), py(N - 1)], {"transpose": py(True)},
+                            ttm_model(N - 1, 2)))
             out.append(case(C, "ttm", "list", X, [lst([mat(rng, 2, d) for d in shape])]))
             out.append(case(C, "ttm", "list-exclude", X, [lst([mat(rng, 2, d) for d in shape])], {"exclude_dims": iarr([0])}))
             U = [mat(rng, d, 2) for d in shape]
             for n in range(N):
-                out.append(case(C, "mttkrp", f"list/{n}", X, [lst(U), py(n)]))
-            out.append(case(C, "mttkrp", "ktensor", X, [Kspec(rng, shape), py(1)]))
+                out.append(case(C, "mttkrp", f"list/{n}", X, [lst(U), py(n)], {}, M(C, "mttkrp")))
+            out.append(case(C, "mttkrp", "ktensor", X, [Kspec(rng, shape), py(1)], {}, M(C, "mttkrp")))
             out.append(case(C, "mttkrps", "list", X, [lst(U)]))
             out.append(case(C, "mttkrps", "ktensor", X, [Kspec(rng, shape)]))
             out.append(case(C, "nvecs", "eigsh", X, [py(0), py(1)]))
@@ -657,16 +672,23 @@ def sptensor_cases(rng, tier):
                 out.append(case(C, m, lab, X, [], {}, M(C, "copy")))
             out.append(case(C, "__deepcopy__", lab, X, [py({})], {}, M(C, "copy")))
             out.append(case(C, "find", lab, X, [], {}, M(C, "find")))
-            for m in ("full", "to_tensor", "double", "norm", "allsubs", "__repr__", "__str__", "logical_not", "ones",
-                      "__neg__", "squash"):
+            for m in ("double", "norm", "allsubs", "__repr__", "__str__", "logical_not", "squash"):
                 out.append(case(C, m, lab, X))
+            for m in ("full", "to_tensor"):
+                out.append(case(C, m, lab, X, [], {}, M(C, "full") if klass == "some" else COMP))
+            CS = M(C, "copysubs_newvals")
+            for m in ("ones", "__neg__"):
+                out.append(case(C, m, lab, X, [], {}, CS))
             for m in ("ndims", "nnz", "order"):
                 out.append(case(C, m, lab, X, kind="prop"))
+            NSm = NS if klass == "some" else COMP
             for p in (perms_for(rng, shape, tier)[:3] if tier == "quick" else perms_for(rng, shape, tier)):
-                out.append(case(C, "permute", f"{lab}/{'id' if p == sorted(p) else 'perm'}", X, [iarr(p)]))
+                out.append(case(C, "permute", f"{lab}/{'id' if p == sorted(p) else 'perm'}", X, [iarr(p)], {}, NSm))
             for t in (reshape_targets(shape)[:3] if tier == "quick" else reshape_targets(shape)):
-                out.append(case(C, "reshape", lab, X, [py(t)]))
-            out.append(case(C, "squeeze", lab, X))
+                out.append(case(C, "reshape", lab, X, [py(t)], {}, NSm))
+            nsq = [d for d in shape if d > 1]
+            out.append(case(C, "squeeze", lab, X, [], {},
+                            M(C, "copy") if len(nsq) == N else (NSm if nsq else COMP)))
             out.append(case(C, "to_sptenmat", lab, X, [iarr([0])]))
             out.append(case(C, "collapse", f"{lab}/all", X))
             out.append(case(C, "elemfun", lab, X, [fn("sqrtabs")]))
@@ -675,7 +697,8 @@ def sptensor_cases(rng, tier):
             out.append(case(C, "squash", f"{lab}/inverse", X, [], {"return_inverse": py(True)}))
             for m in ("__mul__", "__truediv__", "__rmul__", "__eq__", "__ne__", "__ge__", "__gt__", "__le__", "__lt__",
                       "logical_and", "logical_or", "logical_xor", "__add__", "__sub__", "__rtruediv__"):
-                out.append(case(C, m, f"{lab}/scalar", X, [py(2.0)]))
+                out.append(case(C, m, f"{lab}/scalar", X, [py(2.0)], {},
+                                CS if m in ("__mul__", "__truediv__", "__rmul__") else COMP))
             n = gen.numel(shape)
             out.append(case(C, "__getitem__", f"{lab}/int", X, [py(n - 1)]))
             out.append(case(C, "__getitem__", f"{lab}/linear", X, [iarr([0, n - 1])]))
@@ -690,13 +713,13 @@ def sptensor_cases(rng, tier):
                   "logical_or", "logical_xor", "__add__", "__sub__", "isequal", "innerprod"):
             out.append(case(C, m, "sptensor", X, [Y]))
             out.append(case(C, m, "tensor", X, [D]))
-        out.append(case(C, "__mul__", "ktensor", X, [Kspec(rng, shape)]))
-        out.append(case(C, "__truediv__", "ktensor", X, [Kspec(rng, shape, pos=True)]))
+        out.append(case(C, "__mul__", "ktensor", X, [Kspec(rng, shape)], {}, M(C, "copysubs_newvals")))
+        out.append(case(C, "__truediv__", "ktensor", X, [Kspec(rng, shape, pos=True)], {}, M(C, "copysubs_newvals")))
         out.append(case(C, "__add__", "sumtensor", X, [{"t": "sumtensor", "parts": [Tspec(rng, shape)]}]))
         out.append(case(C, "mask", "", X, [Y]))
-        out.append(case(C, "scale", "array", X, [vec(rng, shape[0]), py(0)]))
-        out.append(case(C, "scale", "tensor", X, [Tspec(rng, [shape[0]]), iarr([0])]))
-        out.append(case(C, "scale", "sptensor", X, [Sspec(rng, [shape[0]], "all"), iarr([0])]))
+        out.append(case(C, "scale", "array", X, [vec(rng, shape[0]), py(0)], {}, M(C, "copysubs_newvals")))
+        out.append(case(C, "scale", "tensor", X, [Tspec(rng, [shape[0]]), iarr([0])], {}, M(C, "copysubs_newvals")))
+        out.append(case(C, "scale", "sptensor", X, [Sspec(rng, [shape[0]], "all"), iarr([0])], {}, M(C, "copysubs_newvals")))
         out.append(case(C, "ttv", "one", X, [vec(rng, shape[0]), py(0)]))
         out.append(case(C, "ttv", "all", X, [lst([vec(rng, d) for d in shape])]))
         if N >= 2:
@@ -742,7 +765,6 @@ def sptensor_cases(rng, tier):
     X = Sspec(rng, [2, 2, 3])
     out.append(case(C, "contract", "", X, [py(0), py(1)]))
     out.append(case(C, "contract", "2d", Sspec(rng, [3, 3]), [py(0), py(1)]))
-    del NS
     return out
 
 
@@ -779,8 +801,10 @@ def ktensor_cases(rng, tier):
             for m in ("copy", "__pos__"):
                 out.append(case(C, m, lab, X, [], {}, M(C, "copy", n=n)))
             out.append(case(C, "__deepcopy__", lab, X, [py({})], {}, M(C, "copy", n=n)))
-            for m in ("full", "to_tensor", "double", "norm", "__neg__", "__repr__", "__str__", "tovec", "issymmetric"):
+            for m in ("double", "norm", "__neg__", "__repr__", "__str__", "tovec", "issymmetric"):
                 out.append(case(C, m, lab, X))
+            for m in ("full", "to_tensor"):
+                out.append(case(C, m, lab, X, [], {}, M(C, "full", shape=shape)))
             for m in ("ndims", "ncomponents", "order", "shape"):
                 out.append(case(C, m, lab, X, kind="prop"))
             out.append(case(C, "tovec", f"{lab}/noweights", X, [py(False)]))
